@@ -3,7 +3,7 @@
    completion, same value -- in every world_ok world; and the fuel of the model
    is sufficient, so the model is total. *)
 From V Require Import Common.Base C03.Num C03.Tree C03.MiniJS C03.Worlds C03.TreeProofs C03.TreeProofs2
-  C03.TreeProofs3 C03.TreeProofs4 C03.TreeProofs5 C03.TreeProofs10.
+  C03.TreeProofs3 C03.TreeProofs4 C03.TreeProofs5 C03.TreeProofs10 C03.TreeProofs13.
 
 (* call arguments are never holes (the parser produces holes in array literals only) *)
 Fixpoint no_hole_args (e : expr) {struct e} : Prop :=
@@ -25,7 +25,7 @@ Section MI.
   Definition EQ (a b : expr) : Prop := forall tr res, ev tr a = Some res -> ev tr b = Some res.
 
   Definition okt (e : expr) : Prop := flags_ok W e /\ vls_ok e.
-  Definition okb (e : expr) : Prop := flags_ok W e /\ vls_ok e /\ no_hole_args e.
+  Definition okb (e : expr) : Prop := flags_ok W e /\ vls_ok e /\ no_hole_args e /\ spine_ok e.
 
   Lemma EQ_refl : forall a, EQ a a.
   Proof. intros a tr res H. exact H. Qed.
@@ -350,10 +350,11 @@ Section MI.
       apply andb_true_iff in C. destruct C as [C C3]. apply andb_true_iff in C. destruct C as [C1 C2].
       apply Nat.eqb_eq in C1. apply Z.eqb_eq in C2. subst noc. apply Bool.eqb_prop in C3. subst np.
       destruct Ht as [Htf Htv].
-      destruct Hy as [Hyf [Hyv Hyh]]. destruct Hn as [Hnf [Hnv Hnh]].
+      destruct Hy as [Hyf [Hyv [Hyh Hys]]]. destruct Hn as [Hnf [Hnv [Hnh Hns]]].
       cbn [flags_ok] in Hyf, Hnf. destruct Hyf as [_ [Hytf [Hy0f Hytlf]]]. destruct Hnf as [_ [Hntf [Hn0f Hntlf]]].
       cbn [vls_ok] in Hyv, Hnv. destruct Hyv as [Hytv [Hy0v Hytlv]]. destruct Hnv as [Hntv [Hn0v Hntlv]].
       cbn [no_hole_args] in Hyh, Hnh. destruct Hyh as [[Hy0m Hy0h] _]. destruct Hnh as [[Hn0m Hn0h] _].
+      cbn [spine_ok] in Hys, Hns. destruct Hys as [_ [_ [Hy0s _]]]. destruct Hns as [_ [_ [Hn0s _]]].
       assert (St : same_eval W yt nt) by (exact (vls_sound_size W (esize yt) yt (le_n _) nt Hytv Hntv C4)).
       assert (Htl : forall tr acc, eval_items_with W ev tr ytl acc = eval_items_with W ev tr ntl acc).
       { apply tail_items_same; try assumption; apply vls_all; assumption. }
@@ -370,7 +371,7 @@ Section MI.
         apply as_spread_inv in Sy, Sn. subst y0 n0.
         destruct (rec test ys ns) as [x0|] eqn:R; [|discriminate H]. inv H.
         assert (HX : EQ (EIf test ys ns) x0).
-        { apply (Hrec _ _ _ _ R); [split; assumption | |]; (split; [assumption | split; assumption]). }
+        { apply (Hrec _ _ _ _ R); [split; assumption | |]; (split; [assumption | split; [assumption | split; assumption]]). }
         intros tr res E. rewrite if_eval in E.
         destruct (ev tr test) as [r|] eqn:Et; [|discriminate E].
         destruct (pure_test test tr r Htf C5 Et) as [v ->]. cbn [bind] in E.
@@ -382,7 +383,7 @@ Section MI.
       - (* neither is a spread *)
         destruct (rec test y0 n0) as [x0|] eqn:R; [|discriminate H]. inv H.
         assert (HX : EQ (EIf test y0 n0) x0).
-        { apply (Hrec _ _ _ _ R); [split; assumption | |]; (split; [assumption | split; assumption]). }
+        { apply (Hrec _ _ _ _ R); [split; assumption | |]; (split; [assumption | split; [assumption | split; assumption]]). }
         intros tr res E. rewrite if_eval in E.
         destruct (ev tr test) as [r|] eqn:Et; [|discriminate E].
         destruct (pure_test test tr r Htf C5 Et) as [v ->]. cbn [bind] in E.
@@ -440,29 +441,60 @@ Section MI.
        | discriminate E ]).
   Qed.
 
-  Lemma nullish_sound : forall noN test yes no x, okt test -> vls_ok yes -> vls_ok no ->
-    mi_nullish ub noN true test yes no = Some x -> EQ (EIf test yes no) x.
+  (* "a != null ? a.b : undefined" => "a?.b" *)
+  Lemma chain_core : forall check t whenNonNull x (neg : bool),
+    flags_ok W check -> can_be_removed ub check = true -> vls_ok check ->
+    vls_ok whenNonNull -> spine_ok whenNonNull ->
+    (forall tr v, ev tr check = Some (tr, Val v) -> ev tr t = Some (tr, Val (VBool (if neg then negb (nullish v) else nullish v)))) ->
+    (forall tr r, ev tr t = Some r -> exists r', ev tr check = Some r') ->
+    try_insert_optional_chain check whenNonNull = Some x ->
+    EQ (if neg then EIf t whenNonNull EUndefined else EIf t EUndefined whenNonNull) x.
   Proof.
-    intros noN test yes no x [Htf Htv] Hyv Hnv H. unfold mi_nullish in H.
+    intros check t whenNonNull x neg Hf Hc Hcv Hwv Hws Ht Hdef Hx tr res E.
+    destruct (tioc_sound W check whenNonNull x Hcv Hwv Hws Hx) as [_ [_ Hsem]].
+    assert (Et : exists r, ev tr t = Some r).
+    { destruct neg; rewrite if_eval in E; destruct (ev tr t) as [r|]; try discriminate E; eauto. }
+    destruct Et as [r Et]. destruct (Hdef _ _ Et) as [r' Ec].
+    destruct (pure_test check tr r' Hf Hc Ec) as [v ->].
+    destruct (proj2 (Hsem tr) v Ec) as [Hnull Hnon].
+    pose proof (Ht _ _ Ec) as Et2.
+    destruct neg; rewrite if_eval, Et2 in E; cbn [bind truthy] in E; destruct (nullish v) eqn:Nv; cbn [negb] in E.
+    - rewrite (Hnull eq_refl). exact E.
+    - exact (Hnon eq_refl _ E).
+    - rewrite (Hnull eq_refl). exact E.
+    - exact (Hnon eq_refl _ E).
+  Qed.
+
+  Lemma nullish_sound : forall noN noC test yes no x, okt test ->
+    vls_ok yes -> vls_ok no -> spine_ok yes -> spine_ok no ->
+    mi_nullish ub noN noC test yes no = Some x -> EQ (EIf test yes no) x.
+  Proof.
+    intros noN noC test yes no x [Htf Htv] Hyv Hnv Hys Hns H. unfold mi_nullish in H.
     destruct test as [| | | | | | | | | | | | | | | | | | bop bl br | | | | | | |]; try discriminate H.
     cbn [flags_ok] in Htf. destruct Htf as [Hlf Hrf]. cbn [vls_ok] in Htv. destruct Htv as [Hlv Hrv].
-    cbn [negb] in H.
     assert (Hfin : forall check whenNull whenNonNull (neg : bool),
-      flags_ok W check -> vls_ok check -> vls_ok whenNonNull ->
+      flags_ok W check -> vls_ok check -> vls_ok whenNonNull -> spine_ok whenNonNull ->
       (forall tr v, ev tr check = Some (tr, Val v) ->
          ev tr (EBin bop bl br) = Some (tr, Val (VBool (if neg then negb (nullish v) else nullish v)))) ->
       (forall tr r, ev tr (EBin bop bl br) = Some r -> exists r', ev tr check = Some r') ->
       (if can_be_removed ub check then
          if negb noN && values_look_the_same check whenNonNull then Some (join_left BNullish check whenNull)
-         else None else None) = Some x ->
+         else if negb noC then
+           (if (match whenNull with EUndefined => true | _ => false end)
+            then try_insert_optional_chain check whenNonNull else None)
+         else None
+       else None) = Some x ->
       EQ (if neg then EIf (EBin bop bl br) whenNonNull whenNull else EIf (EBin bop bl br) whenNull whenNonNull) x).
-    { intros check whenNull whenNonNull neg Hcf Hcv Hwv Hte Hdef Hx.
+    { intros check whenNull whenNonNull neg Hcf Hcv Hwv Hws Hte Hdef Hx.
       destruct (can_be_removed ub check) eqn:Cc; [|discriminate Hx].
-      destruct (negb noN && values_look_the_same check whenNonNull) eqn:Cn; [|discriminate Hx]. inv Hx.
-      apply andb_true_iff in Cn. destruct Cn as [_ V].
-      intros tr res E. rewrite jl_nullish. revert E.
-      apply (nullish_core check (EBin bop bl br) whenNull whenNonNull neg Hcf Cc Hte Hdef).
-      apply vls_eq; assumption. }
+      destruct (negb noN && values_look_the_same check whenNonNull) eqn:Cn.
+      - inv Hx. apply andb_true_iff in Cn. destruct Cn as [_ V].
+        intros tr res E. rewrite jl_nullish. revert E.
+        apply (nullish_core check (EBin bop bl br) whenNull whenNonNull neg Hcf Cc Hte Hdef).
+        apply vls_eq; assumption.
+      - destruct (negb noC); [|discriminate Hx].
+        destruct whenNull; try discriminate Hx.
+        exact (chain_core check (EBin bop bl br) whenNonNull x neg Hcf Cc Hcv Hwv Hws Hte Hdef Hx). }
     destruct bop; try discriminate H.
     - (* == *)
       destruct (is_null br) eqn:Nr.
@@ -485,36 +517,36 @@ Section MI.
   Qed.
 
   (* ---- the whole function ---- *)
-  Lemma tail_sound : forall rec noN test yes no x,
+  Lemma tail_sound : forall rec noN noC test yes no x,
     (forall t y n x, rec t y n = Some x -> okt t -> okb y -> okb n -> EQ (EIf t y n) x) ->
     okt test -> okb yes -> okb no ->
-    mangle_tail rec ub noN true test yes no = Some x -> EQ (EIf test yes no) x.
+    mangle_tail rec ub noN noC test yes no = Some x -> EQ (EIf test yes no) x.
   Proof.
-    intros rec noN test yes no x Hrec Ht Hy Hn H. unfold mangle_tail in H.
-    pose proof Ht as [Htf Htv]. pose proof Hy as [Hyf [Hyv _]]. pose proof Hn as [Hnf [Hnv _]].
+    intros rec noN noC test yes no x Hrec Ht Hy Hn H. unfold mangle_tail in H.
+    pose proof Ht as [Htf Htv]. pose proof Hy as [Hyf [Hyv [_ Hys]]]. pose proof Hn as [Hnf [Hnv [_ Hns]]].
     destruct (values_look_the_same yes no) eqn:V.
     - destruct (can_be_removed ub test) eqn:C; inv H.
       + apply same_branches_pure; try assumption. apply vls_eq; assumption.
       + apply same_branches. apply vls_eq; assumption.
     - destruct (mi_simple test yes no) as [x1|] eqn:S1; [inv H; eapply simple_sound; eauto|].
       destruct (mi_calls rec ub test yes no) as [[x2|]|] eqn:S2; [inv H; eapply calls_sound; eauto | | discriminate H].
-      destruct (mi_nullish ub noN true test yes no) as [x3|] eqn:S3; inv H; [eapply nullish_sound; eauto | apply EQ_refl].
+      destruct (mi_nullish ub noN noC test yes no) as [x3|] eqn:S3; inv H; [eapply nullish_sound; eauto | apply EQ_refl].
   Qed.
 
-  Theorem mangle_if_fuel_sound : forall f noN test yes no x,
+  Theorem mangle_if_fuel_sound : forall f noN noC test yes no x,
     okt test -> okb yes -> okb no ->
-    mangle_if_fuel f ub noN true test yes no = Some x -> EQ (EIf test yes no) x.
+    mangle_if_fuel f ub noN noC test yes no = Some x -> EQ (EIf test yes no) x.
   Proof.
-    induction f as [|f IH]; intros noN test yes no x Ht Hy Hn H; [discriminate H|].
+    induction f as [|f IH]; intros noN noC test yes no x Ht Hy Hn H; [discriminate H|].
     assert (Hgen : forall t y n, okt t -> okb y -> okb n ->
-              mangle_tail (mangle_if_fuel f ub noN true) ub noN true t y n = Some x -> EQ (EIf t y n) x).
+              mangle_tail (mangle_if_fuel f ub noN noC) ub noN noC t y n = Some x -> EQ (EIf t y n) x).
     { intros t y n Ht' Hy' Hn'. apply tail_sound; try assumption. intros; eapply IH; eauto. }
     destruct test; cbn [mangle_if_fuel] in H; try (apply Hgen; assumption).
     - (* EUn *) destruct op; try (apply Hgen; assumption).
       intros tr res E. rewrite if_not in E. revert E. apply Hgen; try assumption.
       destruct Ht as [Htf Htv]. cbn [flags_ok] in Htf. cbn [vls_ok] in Htv. split; [apply Htf | exact Htv].
     - (* EBin *) destruct op; try (apply Hgen; assumption).
-      destruct (mangle_if_fuel f ub noN true test2 yes no) as [x0|] eqn:R; [|discriminate H]. inv H.
+      destruct (mangle_if_fuel f ub noN noC test2 yes no) as [x0|] eqn:R; [|discriminate H]. inv H.
       apply if_comma. eapply IH; eauto.
       destruct Ht as [Htf Htv]. cbn [flags_ok] in Htf. cbn [vls_ok] in Htv. split; [apply Htf | apply Htv].
   Qed.
@@ -578,16 +610,17 @@ Section Fuel.
 End Fuel.
 
 Theorem mangle_if_equiv_all : forall (W : world), world_ok W ->
-  forall noNullish test yes no,
+  forall noNullish noOptChain test yes no,
     flags_ok W test -> flags_ok W yes -> flags_ok W no ->
     vls_ok test -> vls_ok yes -> vls_ok no ->
-    no_hole_args yes -> no_hole_args no ->
-    exists e', mangle_if (w_unbound W) noNullish true test yes no = Some e' /\
+    no_hole_args yes -> no_hole_args no -> spine_ok yes -> spine_ok no ->
+    exists e', mangle_if (w_unbound W) noNullish noOptChain test yes no = Some e' /\
       forall tr res, eval W tr (EIf test yes no) = Some res -> eval W tr e' = Some res.
 Proof.
-  intros W Wok noN test yes no Ft Fy Fn Vt Vy Vn Hy Hn.
-  destruct (mangle_if_total_all (w_unbound W) noN true test yes no) as [e' E].
+  intros W Wok noN noC test yes no Ft Fy Fn Vt Vy Vn Hy Hn Sy Sn.
+  destruct (mangle_if_total_all (w_unbound W) noN noC test yes no) as [e' E].
   exists e'. split; [exact E|].
   unfold mangle_if in E.
-  exact (mangle_if_fuel_sound W Wok _ noN test yes no e' (conj Ft Vt) (conj Fy (conj Vy Hy)) (conj Fn (conj Vn Hn)) E).
+  exact (mangle_if_fuel_sound W Wok _ noN noC test yes no e' (conj Ft Vt)
+           (conj Fy (conj Vy (conj Hy Sy))) (conj Fn (conj Vn (conj Hn Sn))) E).
 Qed.
